@@ -18,7 +18,7 @@ Companions == {<<0, -1, 1>>, <<2, -INF, 1>>, <<-2, -1, INF>>, <<1, -INF, INF>>, 
 Init == /\ \E v \in -VMax..VMax : \E lb \in Lows : \E ub \in Ups : \E c \in Companions : \E tol \in {0, 1, 2} : \E tf \in 0..5 :
            \E vfree \in BOOLEAN : \E eps \in {-1, 0, 1} :
              \* eps: the first variable is v + eps/65536 - values very close to, but not on, a bound (no snapping)
-             /\ (eps # 0 => c = <<0, -1, 1>> /\ tf \in {0, 1} /\ tol \in {0, 1})
+             /\ (eps # 0 => c = <<0, -1, 1>> /\ tf \in {0, 1} /\ tol \in {0, 1} /\ v \in -3..3)      \* (keeps numerators in units of 1/65536 small)
              /\ lb <= ub
              /\ (vfree => tol = 1)
              /\ sc = [v |-> <<v, c[1]>>, lb |-> <<lb, c[2]>>, ub |-> <<ub, c[3]>>, tol |-> tol, tf |-> tf, vfree |-> vfree, eps |-> eps]
